@@ -204,3 +204,8 @@ class MapDatasetC(ClassContract):
 
 
 CONTRACTS = [ListDatasetC(), DictDatasetC(), MapDatasetC()]
+
+from contracts.copying import copy_variants  # noqa
+for _c in CONTRACTS:
+    if 'copy' not in _c.methods:
+        _c.methods = dict(_c.methods, copy=copy_variants())  # add_copy
